@@ -228,6 +228,36 @@ fn judge_setter(rec: &mut Rec, start_day: i64, doy: u32, on_datetime: bool, tod_
     }
 }
 
+/// set_day_of_year on a DateTime carrying an offset: "the same year" is the year the value shows.
+fn judge_setter_with_offset(rec: &mut Rec, i: i128, off: i32, doy: u32) {
+    use crate::model::instant::*;
+    rec.eval();
+    rec.api("DateTime::set_day_of_year (with offset)");
+    let local = i + off as i128 * NS;
+    let same_year = fields(i).year == fields(local).year;
+    rec.bin(if same_year { "setdoy-offset/local-year=utc-year" } else { "setdoy-offset/local-year≠utc-year" });
+    rec.nontrivial(hash_i128s(&[i, off as i128, doy as i128, 0x02]));
+    let exp = super::c09::model_set(local, 3, doy as i64);
+    if let Ok(l) = exp {
+        if !(representable(l + D) && representable(l - D) && representable(l - off as i128 * NS - D) && representable(l - off as i128 * NS + D)) {
+            return;
+        }
+    }
+    let r = trap(|| mk_off(i, off).set_day_of_year(doy).map(|x| (read(&x), x.year(), x.day_of_year())));
+    let wit = |obs: serde_json::Value| json!({"start_utc": show(i), "offset": off, "start_local": show(local), "set_day_of_year": doy, "model_local_result": exp.map(show).map_err(|_| "must be refused"), "observed": obs});
+    match (r, exp) {
+        (Err(p), _) => rec.violation(format!("C02|setter-offset|DateTime::set_day_of_year|panic|{},{}", p.class, p.site()), || wit(p.to_json())),
+        (Ok(Ok((got, y, d))), Ok(l)) => {
+            if got != l - off as i128 * NS || y as i64 != fields(l).year || d != doy {
+                rec.violation(format!("C02|setter-offset|DateTime::set_day_of_year|wrong-day|{}", if same_year { "local-year=utc-year" } else { "local-year≠utc-year" }), || wit(json!({"result_local": show(got + off as i128 * NS), "year()": y, "day_of_year()": d})));
+            }
+        }
+        (Ok(Ok((got, _, _))), Err(())) => rec.violation("C02|setter-offset|DateTime::set_day_of_year|accepted-invalid".to_string(), || wit(json!({"result_local": show(got + off as i128 * NS)}))),
+        (Ok(Err(e)), Ok(_)) => rec.violation("C02|setter-offset|DateTime::set_day_of_year|refused-valid".to_string(), || wit(json!({"error": e.to_string()}))),
+        (Ok(Err(_)), Err(())) => {}
+    }
+}
+
 pub fn run(ctx: &Ctx) -> PropResult {
     let full = !ctx.quick() && ctx.san();
     let years = year_set(ctx);
@@ -290,6 +320,27 @@ pub fn run(ctx: &Ctx) -> PropResult {
         }
         judge_setter(rec, start, u32::MAX, false, 0);
         judge_setter(rec, start, 1 << 31, on_dt, 0);
+    }));
+    wls.push(Workload::cases("set_day_of_year_datetime_with_offset", ctx.count(60_000, 2_000_000), |rec, _, rng| {
+        use crate::model::instant::{D, NS};
+        // instants within a day of a New Year (both sides), offsets that do / do not move the local year
+        let a = match rng.below(3) {
+            0 => rng.range_i64(-3000, 3000),
+            1 => *rng.pick(&[-4i64, -3, 0, 1, 1900, 2000, 2023, 2024, 2025, 2100]),
+            _ => rng.range_i64(1970, 2100),
+        };
+        let ny = cal::days_from_civil(a, 1, 1) as i128 * D;
+        let i = match rng.below(3) {
+            0 => ny + rng.range_i128(-86_399, 86_399) * NS,
+            1 => ny + rng.range_i128(-3 * 86_400, 3 * 86_400) * NS + rng.range_i128(0, NS - 1),
+            _ => super::c09::gen_c09_instant(rng),
+        };
+        let off = super::c09::gen_c09_offset(rng, i);
+        let doy = match rng.below(4) {
+            0 => *rng.pick(&[0u32, 1, 59, 60, 61, 365, 366, 367]),
+            _ => 1 + rng.below(366) as u32,
+        };
+        judge_setter_with_offset(rec, i, off, doy);
     }));
     if full {
         // EXHAUSTIVE: every representable year x day-of-year 0..=367 on Date (4.3e9 setter calls).
@@ -354,7 +405,7 @@ pub fn run(ctx: &Ctx) -> PropResult {
         "weekday/BC/0", "weekday/BC/6", "weekday/AD/0", "weekday/AD/3", "doy366/BC", "doy366/AD",
         "yearstart/BC/week53", "yearstart/AD/week52", "yearstart/AD/week1", "yearend/AD/week1", "yearend/BC/week1", "yearend/AD/week53",
         "fmt:yearstart/BC/week53", "fmt:yearend/AD/week53", "fmt:yearend/BC/week1",
-        "setdoy/in-year", "setdoy/zero", "setdoy/366-in-common-year", "setdoy/366-in-leap-year", "setdoy/beyond-year", "setdoy/beyond-range-end",
+        "setdoy-offset/local-year=utc-year", "setdoy-offset/local-year≠utc-year", "setdoy/in-year", "setdoy/zero", "setdoy/366-in-common-year", "setdoy/366-in-leap-year", "setdoy/beyond-year", "setdoy/beyond-range-end",
     ];
     if full {
         meta.required_bins.push("exhaustive-setdoy/landed");
